@@ -9,5 +9,7 @@ CONSTANTS
   MaxPolls = 6
   Vod = FALSE
   Fmp4 = FALSE
+  LL = FALSE
+  CanSkip = FALSE
 INVARIANTS EmitHist
 CHECK_DEADLOCK FALSE
